@@ -906,6 +906,14 @@ pub fn gen_c09(rng: &mut Rng, tier: Tier) -> NetProgram {
             }
         }
     }
+    // a real pass-through: the two gates of the transit module are connected to each other, so the chain is
+    // a.via - mid.t[0] - mid.t[1] - b.via and messages of a and b cross `mid` without being handled there
+    if let Some(mid) = prog.modules.iter().position(|m| m.name == "mid") {
+        if rng.chance(1, 2) {
+            let chan = if rng.chance(1, 3) { Some(Chan { bitrate: 0, latency_ns: 1_000_000, jitter_ns: 0, queue: -1 }) } else { None };
+            prog.links.push(Link { am: mid as u32, ag: 0, bm: mid as u32, bg: 1, flip: rng.chance(1, 2), chan });
+        }
+    }
     // modules that differ only in where they live: every module moves into a box of its own and all get the same name
     // (box0.node, box1.node, ...): whatever is remembered about "the module" must not go by its local name
     if rng.chance(1, 4) {
